@@ -197,7 +197,7 @@ CHECKS['C01'] = dict(
 GARBAGE_LD = ['-Wl,--wrap=posix_memalign', '-Wl,--wrap=free']
 CHECKS['C03'] = dict(
     level='exploration',
-    rule='generated API histories (3-line productive prologue + 0..100 generated commands over AllocCache/InitCache/ReleaseCache/AllocDataset/InitDataset(16 threads)/ReleaseDataset/CreateVm/DestroyVm/'
+    rule='generated API histories (3-line productive prologue, in a third of the histories continued by the rebinding scenario hash / release the bound cache / allocate+initialise a new cache object with the same key at the same address / bind / hash on a VM of a generated class, + 0..100 generated commands over AllocCache/InitCache/ReleaseCache/AllocDataset/InitDataset(16 threads)/ReleaseDataset/CreateVm/DestroyVm/'
          'SetCache/SetDataset/SetV2/ClearV2/Hash/BatchFirst/Next/Last/Churn; operands are indices resolved modulo the live objects; a command whose documented precondition does not hold is skipped and counted) '
          'over 5 keys (a generated key, the empty key, one > 60 bytes, and two relatives of the first: same length differing only in the last byte behind an embedded zero byte, and a zero-extended / prefix version), 6 generated inputs, all light VM classes (+ fast VMs in the dataset histories), both versions, under an interposed allocator that pre-fills every '
          'library block with a generated pattern, poisons and quarantines freed blocks and hands big blocks (scratchpad, cache, dataset) out again at the same address. Oracle: every digest == digest of a fresh cache + fresh VM; '
